@@ -14,7 +14,7 @@
 (***************************************************************************)
 EXTENDS Mei, TLC
 
-CONSTANTS Identities,      \* set of identities (functions MCIds -> value)
+CONSTANTS Families,        \* names of the identity families explored (see Fam)
           ExtraStarts      \* start ids tried besides 0 and the populated ones
 
 VARIABLES idn, code, start,      \* the scenario (constant along a behaviour)
@@ -22,8 +22,9 @@ VARIABLES idn, code, start,      \* the scenario (constant along a behaviour)
           got,                   \* objects collected so far, in arrival order
           pages,                 \* number of request/response exchanges so far (saturates at PageCap)
           done,                  \* the client stopped: last answer had more-follows = 0 or was an exception
-          rsp                    \* last response message (observation)
-vars == <<idn, code, start, oid, got, pages, done, rsp>>
+          rsp,                   \* last response message (observation)
+          judged, exp, npop      \* ghosts fixed by Init: Mei!Judged, Mei!Expected, Mei!NPop of the scenario
+vars == <<idn, code, start, oid, got, pages, done, rsp, judged, exp, npop>>
 
 PageCap == 12                    \* > 8 objects + 1: keeps the state space finite for non-terminating deviations
 
@@ -31,33 +32,52 @@ PageCap == 12                    \* > 8 objects + 1: keeps the state space finit
 MCIds == {0, 1, 2, 3, 6, 128, 129, 255}
 MkVal(x, n) == [k \in 1..n |-> (7 * x + k) % 256]          \* content depends on the id: a swapped value is visible
 MkIdn(lens) == [x \in MCIds |-> MkVal(x, lens[x])]
+(* families are sets of length functions; the byte values are only built in Init (TLC evaluates constant
+   definitions eagerly: tens of thousands of 2000-byte identities there cost minutes)                    *)
 (* every assignment of the lengths Ls (0 = unset) to the ids S, the other ids unset *)
-Combos(S, Ls) == {MkIdn([x \in MCIds |-> IF x \in S THEN f[x] ELSE 0]) : f \in [S -> Ls]}
+Combos(S, Ls) == {[x \in MCIds |-> IF x \in S THEN f[x] ELSE 0] : f \in [S -> Ls]}
 (* all eight ids populated with `base'; one pair of ids takes every pair of lengths from Ls *)
-Pairs(base, Ls) == {MkIdn([x \in MCIds |-> IF x = p[1] THEN p[3] ELSE IF x = p[2] THEN p[4] ELSE base]) :
+Pairs(base, Ls) == {[x \in MCIds |-> IF x = p[1] THEN p[3] ELSE IF x = p[2] THEN p[4] ELSE base] :
                       p \in {q \in MCIds \X MCIds \X Ls \X Ls : q[1] < q[2]}}
-Uniform(Ls) == {MkIdn([x \in MCIds |-> n]) : n \in Ls}
+Uniform(Ls) == {[x \in MCIds |-> n] : n \in Ls}
 
 Lens == {0, 1, 100, 121, 122, 123, 200, 243, 244}           \* 2+121+2+121 = 246 fits exactly, 121/122 is one over
 Over == {0, 1, 244, 245}                                    \* 245 fits no PDU
 
-QuickIdentities ==
-  Combos({0, 1, 2, 128}, Lens) \cup Combos({1, 3, 6, 255}, Lens)
-    \cup Combos({0, 2, 129}, Over) \cup Pairs(1, {121, 122, 244}) \cup Uniform({1, 100, 121, 122, 244, 245})
-BaseIdentities ==
-  QuickIdentities \cup Combos({0, 3, 128, 129}, Lens) \cup Combos({2, 6, 129, 255}, Lens)
-    \cup Combos({0, 1, 2, 3}, Lens) \cup Combos({6, 128, 129, 255}, Lens)
-    \cup Combos({1, 6, 128, 255}, Over) \cup Pairs(100, {1, 121, 122, 123, 243, 244, 245})
-(* the smallest family on which every deviation shows (used for the Dev runs and the liveness run) *)
-DevIdentities ==
-  Combos({0, 1, 128}, {0, 1, 121, 122, 244, 245}) \cup Uniform({100, 121})
+(* Families are looked up by name through an operator with a parameter: TLC evaluates every zero-arity
+   constant definition eagerly, once per worker, and unions of large sets there are quadratic.          *)
+Fam(n) ==
+  CASE n = "c_0_1_2_128"   -> Combos({0, 1, 2, 128}, Lens)
+    [] n = "c_1_3_6_255"   -> Combos({1, 3, 6, 255}, Lens)
+    [] n = "c_0_3_128_129" -> Combos({0, 3, 128, 129}, Lens)
+    [] n = "c_2_6_129_255" -> Combos({2, 6, 129, 255}, Lens)
+    [] n = "c_0_1_2_3"     -> Combos({0, 1, 2, 3}, Lens)
+    [] n = "c_6_128_129_255" -> Combos({6, 128, 129, 255}, Lens)
+    [] n = "q_0_2_3_128"   -> Combos({0, 2, 3, 128}, Lens \ {123})
+    [] n = "q_1_6_255"     -> Combos({1, 6, 255}, Lens \ {123})
+    [] n = "o_0_2_129"     -> Combos({0, 2, 129}, Over)
+    [] n = "o_1_6_128_255" -> Combos({1, 6, 128, 255}, Over)
+    [] n = "p_1"           -> Pairs(1, {121, 122, 244})
+    [] n = "p_100"         -> Pairs(100, {1, 121, 122, 123, 243, 244, 245})
+    [] n = "u"             -> Uniform({1, 100, 121, 122, 244, 245})
+    (* the smallest family on which every deviation shows (used for the Dev runs) *)
+    [] n = "d_0_1_128"     -> Combos({0, 1, 128}, {0, 1, 121, 122, 244, 245})
+    [] n = "d_u"           -> Uniform({100, 121})
+QuickFamilies == {"q_0_2_3_128", "q_1_6_255", "o_0_2_129", "p_1", "u"}
+BaseFamilies  == QuickFamilies \cup {"c_0_1_2_128", "c_1_3_6_255", "c_0_3_128_129", "c_2_6_129_255", "c_0_1_2_3", "c_6_128_129_255",
+                                     "o_1_6_128_255", "p_100"}
+DevFamilies   == {"d_0_1_128", "d_u"}
+LiveFamilies  == {"d_0_1_128", "d_u", "o_0_2_129"}        \* liveness is checked on these in the quick tier
 
 (* ---- the client loop ------------------------------------------------------ *)
 NoRsp == [t |-> "Exception", fc |-> 43, code |-> 0]          \* placeholder before the first answer
 
-Init == /\ idn \in Identities
+Init == /\ \E f \in Families : \E l \in Fam(f) : idn = MkIdn(l)
+        /\ npop = NPop(idn)
         /\ code \in 1..4
         /\ start \in {0} \cup PopIds(idn) \cup ExtraStarts
+        /\ judged = Judged(idn, code, start)
+        /\ exp = IF judged THEN Expected(idn, code, start) ELSE <<>>
         /\ oid = start
         /\ got = <<>>
         /\ pages = 0
@@ -74,21 +94,21 @@ Request ==
         ELSE /\ got' = IF pages < PageCap THEN got \o r.objs ELSE got
              /\ IF r.more = More THEN oid' = r.next /\ done' = FALSE
                                  ELSE oid' = oid /\ done' = TRUE
-  /\ UNCHANGED <<idn, code, start>>
+  /\ UNCHANGED <<idn, code, start, judged, exp, npop>>
 
 Next == Request
 Spec == Init /\ [][Next]_vars /\ WF_vars(Next)
 
 (* ---- properties (C20) ------------------------------------------------------ *)
-J   == Judged(idn, code, start)
-Exp == Expected(idn, code, start)
+J   == judged
+Exp == exp
 Answered == pages > 0
 
 (* no response PDU exceeds 253 bytes -- for every identity and start id, judged or not *)
 SizeBound == Len(Encode(rsp)) <= MaxPdu
 RspWellFormed == DecodeRsp(Encode(rsp)) = rsp
 (* the chain terminates -- for every identity and start id: bounded number of pages (safety) and <>done (liveness) *)
-PageBound == pages <= NPop(idn) + 1
+PageBound == pages <= npop + 1
 ChainTerminates == <>done
 (* what has arrived is always an initial piece of what is demanded: no foreign object, exact values, ascending
    order, nothing skipped, nothing twice *)
